@@ -3,7 +3,12 @@
 use super::{Algorithm, CompressionStats, Compressor, CompressorFactory};
 use crate::error::{Result, ZiporaError};
 use std::sync::{Arc, RwLock};
+#[cfg(not(zipora_verif))]
 use std::time::{Duration, Instant};
+#[cfg(zipora_verif)]
+use std::time::Duration;
+#[cfg(zipora_verif)]
+use crate::verif::time::Instant;
 use tokio::sync::Semaphore;
 
 /// Compression mode for real-time scenarios
